@@ -75,7 +75,7 @@ pub fn gen_step(rng: &mut Rng, spec: &WorldSpec, serial: usize, allow_fail: bool
                 OutStep { fd, hex: hex(format!("r{} {} {} fd{} line{}\n", serial, cf.command, cf.target, fd, i).as_bytes()), pause_ms: 0, close: false }
             })
             .collect();
-        behav.push(Behav { command: cf.command.clone(), target: cf.target.clone(), outs, code: 0, exit_pause_ms: 0, early_exit: false, hold_pipes_ms: 0 });
+        behav.push(Behav { command: cf.command.clone(), target: cf.target.clone(), outs, code: 0, exit_pause_ms: 0, early_exit: false, hold_pipes_ms: 0, outs_again: vec![] });
     }
     if allow_fail && !behav.is_empty() && rng.chance(1, 4) {
         let i = rng.below(behav.len());
@@ -207,7 +207,7 @@ fn gen_c12_huge(rng: &mut Rng) -> C12Scenario {
         let t = spec.targets[serial % 5].path.clone();
         RunStep {
             opts: RunOpts { commands: vec!["build".into()], targets: vec![t.clone()], ..Default::default() },
-            behav: vec![Behav { command: "build".into(), target: t.clone(), outs: vec![OutStep { fd: 1, hex: hex(format!("r{} build {} fd1 line0\n", serial, t).as_bytes()), pause_ms: 0, close: false }], code: 0, exit_pause_ms: 0, early_exit: false, hold_pipes_ms: 0 }],
+            behav: vec![Behav { command: "build".into(), target: t.clone(), outs: vec![OutStep { fd: 1, hex: hex(format!("r{} build {} fd1 line0\n", serial, t).as_bytes()), pause_ms: 0, close: false }], code: 0, exit_pause_ms: 0, early_exit: false, hold_pipes_ms: 0, outs_again: vec![] }],
             rejected: false,
             edits: vec![],
             cp_update_before: false,
